@@ -1278,9 +1278,8 @@ fn ob_c19_repetition_compose_roundtrip(lower: usize, has_upper: bool, upper: usi
 // (C17/C08). Nothing outside those functions can name them, so the text is copied byte-identically
 // into this module; dropped: the enclosing function body (the fold driver call, T3).
 // ---------------------------------------------------------------------------------------------
-//@hoist src/token/mod.rs | has_root | struct IsRooting
-//@hoist src/token/mod.rs | has_root | impl<'t, A> Fold<'t, A> for IsRooting
-//@hoist src/token/mod.rs | partition | fn pop_expression_bytes(
+//@hoist-all src/token/mod.rs | has_root
+//@hoist-all src/token/mod.rs | partition
 
 pub(crate) fn leaf_token(k: u8) -> Token<'static, ()> {
     Token::new(leaf(k), ())
@@ -1303,6 +1302,14 @@ pub(crate) fn mk_branch(bk: u8, n: usize, lower: usize, upper: Option<usize>) ->
             BranchKind::Repetition(Repetition { token: Box::new(leaf_token(1)), lower, upper })
         },
     }
+}
+// the token of `</a:1,>`: a repetition (at least once) of a body that begins with a separator
+pub(crate) fn rooted_repetition_token(span: Span) -> Token<'static, Span> {
+    let body = Token::new(
+        BranchKind::Concatenation(Concatenation(vec![leaf_token_spanned(5, (span.0 + 1, 1)), leaf_token_spanned(0, (span.0 + 2, 1))])),
+        (span.0 + 1, 2),
+    );
+    Token::new(BranchKind::Repetition(Repetition { token: Box::new(body), lower: 1, upper: None }), span)
 }
 fn mk_when(k: u8) -> When {
     match k {
